@@ -7,6 +7,7 @@ import (
 
 	"github.com/kardiachain/go-kardia/configs"
 	"github.com/kardiachain/go-kardia/lib/common"
+	"github.com/kardiachain/go-kardia/lib/crypto"
 )
 
 // ---------------------------------------------------------------- byte-code generator
@@ -70,12 +71,64 @@ func (a *asm) create(init []byte, value *big.Int) *asm {
 	return a.pushN(uint64(len(init))).pushN(0).push(value).op(0xf0, 0x50)
 }
 
+// CREATE2(value, 0, len(init), salt) with init written to memory in 32-byte chunks; POP
+func (a *asm) create2(init []byte, value *big.Int, salt uint64) *asm {
+	for i := 0; i < len(init); i += 32 {
+		chunk := make([]byte, 32)
+		copy(chunk, init[i:])
+		a.b = append(a.b, 0x7f)
+		a.b = append(a.b, chunk...)
+		a.pushN(uint64(i)).op(0x52)
+	}
+	return a.pushN(salt).pushN(uint64(len(init))).pushN(0).push(value).op(0xf5, 0x50)
+}
+
+// probe: what the world looks like at `target` is written to storage, so that a stale view of
+// that account (balance, code hash, code size, existence) changes the state root:
+// SSTORE(slot, BALANCE(t)); SSTORE(slot+1, EXTCODEHASH(t)); SSTORE(slot+2, EXTCODESIZE(t))
+func (a *asm) probe(target common.Address, slot uint64) *asm {
+	a.pushAddr(target).op(0x31).pushN(slot).op(0x55)
+	a.pushAddr(target).op(0x3f).pushN(slot + 1).op(0x55)
+	return a.pushAddr(target).op(0x3b).pushN(slot + 2).op(0x55)
+}
+
 type codeGen struct {
 	r       *rnd
 	targets []common.Address // addresses byte code may refer to
+	hot     []common.Address // addresses of future creations (pre-funded): preferred targets
+	self    common.Address   // the contract whose code is being generated (CREATE2 addresses)
+	futures []common.Address // CREATE2 addresses the generated code will create at
 }
 
-func (g *codeGen) target() common.Address { return g.targets[g.r.Intn(len(g.targets))] }
+func (g *codeGen) target() common.Address {
+	if len(g.hot) > 0 && g.r.Chance(1, 3) {
+		return g.hot[g.r.Intn(len(g.hot))]
+	}
+	return g.targets[g.r.Intn(len(g.targets))]
+}
+
+// failing constructors (the creation is rolled back inside the VM): REVERT, INVALID, out of gas,
+// runtime above MaxCodeSize, runtime whose deposit cannot be paid
+func (g *codeGen) failingInit() []byte {
+	a := &asm{}
+	switch g.r.Pick(3, 1, 2, 2, 2, 2) {
+	case 0:
+		a.pushN(0).pushN(0).op(0xfd)
+	case 1:
+		a.op(0xfe)
+	case 2:
+		g.terminate(a, 6)
+	case 3:
+		a.pushN(uint64(configs.MaxCodeSize + 1 + g.r.Intn(3))).pushN(0).op(0xf3)
+	case 4: // writes, pays somebody, then reverts: everything has to be undone
+		a.sstore(uint64(g.r.Intn(3)), 1+uint64(g.r.Intn(5)))
+		a.call(g.target(), g.smallVal(), true, 0)
+		a.pushN(0).pushN(0).op(0xfd)
+	default: // 24000 bytes of runtime: 4.8M gas of code deposit, more than any transaction here carries
+		a.pushN(uint64(configs.MaxCodeSize - g.r.Intn(3))).pushN(0).op(0xf3)
+	}
+	return a.b
+}
 func (g *codeGen) smallVal() *big.Int {
 	switch g.r.Pick(4, 3, 2, 1) {
 	case 0:
@@ -116,7 +169,7 @@ func (g *codeGen) terminate(a *asm, kind int) {
 // runtime code of a small child contract (at most 32 bytes so that an init code can return it)
 func (g *codeGen) tinyRuntime() []byte {
 	a := &asm{}
-	switch g.r.Pick(3, 2, 2, 1, 1) {
+	switch g.r.Pick(3, 2, 2, 1, 2, 1) {
 	case 0:
 		a.op(0x00)
 	case 1:
@@ -125,6 +178,8 @@ func (g *codeGen) tinyRuntime() []byte {
 		a.pushAddr(g.target()).op(0xff)
 	case 3:
 		a.pushN(0).pushN(0).op(0xfd)
+	case 4:
+		a.bump(uint64(g.r.Intn(3))).op(0x00)
 	default:
 		a.sstore(0, 1).op(0x00)
 	}
@@ -134,7 +189,15 @@ func (g *codeGen) tinyRuntime() []byte {
 // init code (for CREATE inside contracts and for contract-creation transactions)
 func (g *codeGen) initCode(depth int) []byte {
 	a := &asm{}
-	switch g.r.Pick(4, 2, 2, 1, 2, 2, 2, 2, 2, 2) {
+	switch g.r.Pick(4, 2, 2, 1, 2, 2, 2, 2, 2, 2, 3, 2) {
+	case 10: // reads slots the address may have owned before the creation (must read zero), keeps the sums
+		for j := 0; j < 1+g.r.Intn(2); j++ {
+			a.bump(uint64(g.r.Intn(3)))
+		}
+		a.probe(g.target(), 4)
+		a.pushN(0).pushN(0).op(0xf3)
+	case 11:
+		return g.failingInit()
 	case 0: // return a tiny runtime
 		rt := g.tinyRuntime()
 		a.push(new(big.Int).SetBytes(rt))
@@ -177,7 +240,16 @@ func (g *codeGen) contractCode() (code []byte, clears int) {
 	a := &asm{}
 	n := 1 + g.r.Intn(3)
 	for i := 0; i < n; i++ {
-		switch g.r.Pick(5, 2, 2, 2, 1, 4, 3) {
+		switch g.r.Pick(5, 2, 2, 2, 1, 4, 3, 3, 2) {
+		case 7:
+			a.probe(g.target(), uint64(24+3*g.r.Intn(2)))
+		case 8:
+			init := g.initCode(1)
+			salt := uint64(g.r.Intn(2))
+			a.create2(init, g.smallVal(), salt)
+			var sb [32]byte
+			sb[31] = byte(salt)
+			g.futures = append(g.futures, crypto.CreateAddress2(g.self, sb, crypto.Keccak256(init)))
 		case 5:
 			nt := g.r.Intn(4)
 			var tp []uint64
